@@ -39,11 +39,10 @@ FUNC_SIG = {'subtraction_operation': ['sig', 'sig'], 'and_operation': ['sig', 's
             'once_timed_operation': ['sig', 'int', 'int'], 'historically_timed_operation': ['sig', 'int', 'int'],
             'always_timed_operation': ['sig', 'int', 'int'], 'eventually_timed_operation': ['sig', 'int', 'int'],
             'since_timed_operation': ['sig', 'sig', 'int', 'int'], 'until_timed_operation': ['sig', 'sig', 'int', 'int']}
-# module-level functions that stay hand-modelled (DenseWin.v) unless --all is given: the hand function and the digest of the Python text.
-# Their translation exists and is validated against the Python functions (make denseofflinegen-check translates with --all), but
-# DenseOfflineGenCorrect.v does not prove it equal to the hand model yet.
-HAND_FUNCS = {'once_timed_operation': ('once_timed_op', '7203c21420fa'), 'historically_timed_operation': ('hist_timed_op', '21d7ac92ee0a'),
-              'always_timed_operation': ('alw_timed_op', 'da90b1238a62'), 'eventually_timed_operation': ('ev_timed_op', '1c9b51e76d19')}
+# module-level functions that stay hand-modelled: none any more.  The four window loops once/historically/always/eventually_timed_operation
+# are translated (gen_<name>) and DenseOfflineGenWinCorrect.v proves them equal to DenseWin.once_timed_op / hist_timed_op / alw_timed_op / ev_timed_op.
+# (A function listed here as name: (hand function, digest) is pinned by digest and called as the hand function unless --all is given.)
+HAND_FUNCS = {}
 ALL = False
 # hand-modelled methods: digest of the method, the case of gen_deval
 PINNED_METHODS = {'visit': 'bddabc11df70', 'visitVariable': '9f973d2c5be9', 'visitConstant': '476423e19d90'}
